@@ -43,7 +43,7 @@ CONSTANTS Dim, C0, Sp0,      \* 1 | 2, input channels, input length / side
           MaxRounds,         \* 1 | 2 PIT rounds
           TimeChoices,       \* "open" | "all": time-mask patterns per searched Conv1d
           TupMode,           \* "one" | "few" | "pc"
-          SelMode,           \* "rot" | "all"
+          SelMode,           \* "rot" | "all" | "one"
           Backends,          \* subset of {"match", "maupiti"}
           LastStage,         \* "pit" | "mps" | "int": where the explored pipelines stop
           AllowFindings      \* FALSE: only architectures inside PitDomain are sealed
@@ -150,6 +150,7 @@ AllWpl(g, a, c) == {h \in [WGroups(g, a) -> 1..3] : \A x \in WGroups(g, a) : h[x
 Sels(g, a, c) ==
     IF c.wt = "pc" THEN {[a |-> RotA(g, a, c, k), w |-> RotWpc(g, a, c, k)] : k \in 0..1}
     ELSE IF SelMode = "all" THEN {[a |-> fa, w |-> fw] : fa \in AllA(g, a, c), fw \in AllWpl(g, a, c)}
+    ELSE IF SelMode = "one" THEN {[a |-> RotA(g, a, c, 0), w |-> RotW(g, a, c, 0)]}
     ELSE {[a |-> RotA(g, a, c, k), w |-> RotW(g, a, c, k)] : k \in 0..1} \cup {[a |-> TopA(g, a, c), w |-> TopW(g, a, c)]}
 PcOk(g, a) == ~InputConnected(g, a) /\ ~MixedWidth(g, a) /\ IsLayer(a, N(a))
 
